@@ -320,6 +320,27 @@ func init() {
 								c.Fail("", "polygon centroid differs from the exact area-weighted mean", map[string]interface{}{"polygon": sv(pg), "got": sv(ctr), "want": []float64{wx, wy}, "tol": tol})
 							}
 						}
+						// the same polygon with some of its rings spelled without the repeated closing vertex (the outer ring
+						// and each hole independently): same area, same centroid
+						if len(pg) > 0 {
+							mixed := clonePoly(pg)
+							changed := false
+							for i := range mixed {
+								if n := len(mixed[i]); n >= 4 && r.Bool() {
+									mixed[i] = mixed[i][:n-1]
+									changed = true
+								}
+							}
+							if changed {
+								mc, ma := planar.CentroidArea(mixed)
+								oc, oa := planar.CentroidArea(pg)
+								c.Eval()
+								_, sc := extentOf(rings[0])
+								if !relClose(ma, oa, 1e-12, 0) || !relClose(planar.Area(mixed), oa, 1e-12, 0) || !(math.Abs(mc[0]-oc[0]) <= 1e-9*sc && math.Abs(mc[1]-oc[1]) <= 1e-9*sc) {
+									c.Fail("", "spelling some rings of a polygon without the closing vertex changes its area or centroid", map[string]interface{}{"polygon": sv(mixed), "area": ma, "centroid": sv(mc), "area_all_closed": oa, "centroid_all_closed": sv(oc)})
+								}
+							}
+						}
 						total.Add(total, pa)
 						mp = append(mp, pg)
 						models = append(models, rings)
@@ -470,6 +491,48 @@ func init() {
 						cg, ci := planar.DistanceFromWithIndex(orb.Collection{orb.Point{bx - 1e6, by}, cloneMP(mp)}, qq)
 						if !(math.Abs(cg-best) <= 1e-9*sc) || ci != 1 {
 							c.Fail("", "DistanceFromWithIndex on a collection is not the minimum over its members", map[string]interface{}{"point": q, "got": cg, "index": ci, "want": best})
+						}
+					}
+					// "the minimum over all boundary segments", whatever the rings are to each other: members whose second and
+					// later rings are arbitrary integer rings (not nested in the first, overlapping, far away), some rings unclosed
+					{
+						var loose orb.MultiPolygon
+						var segsOf [][][]P
+						for k := r.Range(1, 3); k > 0; k-- {
+							var pg orb.Polygon
+							var rs [][]P
+							for j := r.Range(1, 3); j > 0; j-- {
+								open := c10intRing(r)
+								v := gen.Close(open)
+								if r.P(1, 3) {
+									v = open // the ring as given: no closing segment
+								}
+								pg = append(pg, pToRing(v))
+								rs = append(rs, v)
+							}
+							loose = append(loose, pg)
+							segsOf = append(segsOf, rs)
+						}
+						for t := 0; t < 8; t++ {
+							rs := segsOf[r.Intn(len(segsOf))]
+							v := rs[r.Intn(len(rs))]
+							p := v[r.Intn(len(v))]
+							q := P{p[0] + float64(r.Range(-3000, 3000)), p[1] + float64(r.Range(-3000, 3000))}
+							if t%4 == 0 {
+								q = P{p[0] + float64(r.Range(-1<<21, 1<<21)), p[1] + float64(r.Range(-1<<21, 1<<21))} // far outside every bound
+							}
+							best := math.Inf(1)
+							for _, rs := range segsOf {
+								for _, rr := range rs {
+									best = math.Min(best, exactDist(q, rr, false))
+								}
+							}
+							got, gi := planar.DistanceFromWithIndex(loose, orb.Point{q[0], q[1]})
+							c.Eval()
+							if !(math.Abs(got-best) <= 1e-9*(1<<22)) || gi < 0 || gi >= len(loose) {
+								c.Fail("", "DistanceFrom(multi-polygon) is not the minimum over all boundary segments of all rings of all members", map[string]interface{}{"multipolygon": sv(loose), "point": q, "got": got, "index": gi, "want": best})
+								break
+							}
 						}
 					}
 					c.Nontrivial(h.Mix(hashP(models[0][0]), uint64(np)))
